@@ -190,23 +190,48 @@ theorem decommit_ok_climb (hh : h ≤ 250) (r : Felt) (queries : List Query) (au
     · subst hv; exact ⟨rest, rfl⟩
     · simp [hv] at hok
 
-/-- number of authentication nodes a set of leaf indices consumes (it does not depend on the
-    tree: the length of `Merkle.authPath` for any leaves) -/
-def authCount (h : Nat) (Q : List Nat) : Nat :=
-  (authPath (⟨fun _ _ => 0, fun _ => 0, fun _ _ => 0, fun _ => [], 0⟩ : Hashes) 0 h (fun _ => 0) Q).length
+/-- number of authentication nodes consumed from layer to layer: per layer, the siblings that
+    are not themselves known (`Merkle.siblings`), then on to the parents -/
+def authCountLayers : Nat → List Nat → Nat
+  | 0, _ => 0
+  | n + 1, I => (siblings I).length + authCountLayers n (parents I)
+
+/-- number of authentication nodes the set `Q` of leaf numbers of a tree of height `h` needs (it
+    does not depend on the tree: it is the length of `Merkle.authPath` for any leaves) -/
+def authCount (h : Nat) (Q : List Nat) : Nat := authCountLayers h (Q.map (· + 2 ^ h))
+
+theorem authLayers_length (H : Hashes) (nf : Felt) (h : Nat) (leaf : Nat → Felt) :
+    ∀ (n k : Nat) (I : List Nat), (authLayers H nf h leaf n k I).length = authCountLayers n I := by
+  intro n
+  induction n with
+  | zero => intro k I; rfl
+  | succ n ih =>
+    intro k I
+    simp only [authLayers, authCountLayers, List.length_append, List.length_map, ih]
+
+theorem authPath_length (H : Hashes) (nf : Felt) (h : Nat) (leaf : Nat → Felt) (Q : List Nat) :
+    (authPath H nf h leaf Q).length = authCount h Q :=
+  authLayers_length H nf h leaf h 0 _
 
 theorem climb_consumed {d : Nat} {L : List Node} {a : List Felt} {v : Felt} {rest : List Felt}
-    (hc : climb H nf d L a = some (v, rest)) (H' : Hashes) (nf' : Felt) (h' : Nat)
-    (leaf : Nat → Felt) (k : Nat) :
-    a.length = (authLayers H' nf' h' leaf d k (L.map Prod.fst)).length + rest.length := by
-  have h1 := climb_length d L a v rest hc h' leaf k
-  have : ∀ (n k : Nat) (I : List Nat),
-      (authLayers H nf h' leaf n k I).length = (authLayers H' nf' h' leaf n k I).length := by
-    intro n
-    induction n with
-    | zero => intro k I; rfl
-    | succ n ih => intro k I; simp only [authLayers, List.length_append, List.length_map, ih]
-  rw [← this]; exact h1
+    (hc : climb H nf d L a = some (v, rest)) :
+    a.length = authCountLayers d (L.map Prod.fst) + rest.length := by
+  have h1 := climb_length d L a v rest hc 0 (fun _ => v) 0
+  rw [authLayers_length] at h1
+  exact h1
+
+/-- an accepted vector opening consumed `authCount` authentication nodes: there are at least
+    that many (unconditionally) -/
+theorem decommit_auths_length_ge (hh : h ≤ 250) (r : Felt) (qs : List Query) (a : List Felt)
+    (hne : qs ≠ []) (hs : (qs.map (·.index.val)).Pairwise (· < ·))
+    (hr : ∀ q ∈ qs, q.index.val < 2 ^ h)
+    (h1 : Vector.decommit H ⟨⟨Felt.ofNat h, nf⟩, r⟩ qs a = .ok ()) :
+    authCount h (qs.map (·.index.val)) ≤ a.length := by
+  obtain ⟨ra, hc1⟩ := decommit_ok_climb hh r qs a hne hs hr h1
+  have := climb_consumed hc1
+  rw [nodesOf_fst] at this
+  unfold authCount
+  omega
 
 /-- **Two accepted vector openings of the same root at the same indices** present the same values
     and agree on the consumed prefix of the authentication nodes (of length `authCount`), or a
@@ -257,9 +282,8 @@ theorem decommit_two_openings (hh : h ≤ 250) (r : Felt) (qs qs' : List Query) 
       exact this _ _ hidx hval
     refine ⟨hq, pre, ra, rb, hp1, hp2, ?_⟩
     have hl := climb_consumed hc1
-      (⟨fun _ _ => 0, fun _ => 0, fun _ _ => 0, fun _ => [], 0⟩ : Hashes) 0 h (fun _ => 0) 0
     rw [hp1, List.length_append, nodesOf_fst] at hl
-    unfold authCount authPath
+    unfold authCount
     omega
   · exact Or.inr hcol
 
@@ -355,5 +379,37 @@ theorem table_two_openings (c : Table.Commitment) (hh : c.vector.config.height.v
       exact ⟨hv, pre, ra, rb, hp1, hp2, hlen⟩
     · exact Or.inr (Or.inr hc.weaken)
   · exact Or.inr (Or.inl hcol)
+
+/-- an accepted table opening carries at least `authCount` authentication nodes -/
+theorem table_auths_length_ge (c : Table.Commitment) (hh : c.vector.config.height.val ≤ 250)
+    (queries v a : List Felt) (hne : queries ≠ [])
+    (hs : (queries.map (·.val)).Pairwise (· < ·))
+    (hr : ∀ q ∈ queries, q.val < 2 ^ c.vector.config.height.val)
+    (h1 : Table.decommit H c queries v a = .ok ()) :
+    authCount c.vector.config.height.val (queries.map (·.val)) ≤ a.length := by
+  obtain ⟨nc, ⟨⟨hF, nf⟩, r⟩⟩ := c
+  simp only at hh hr ⊢
+  unfold Table.decommit at h1
+  simp only at h1
+  split at h1
+  · simp at h1
+  split at h1
+  · simp at h1
+  generalize hfr : decide (nf.val ≥ (hF + 1).val) = fr at h1
+  rw [← ofNat_val_self hF] at h1
+  have hi1 := vectorQueries_index (H := H) nc.val fr queries (v.map (· * Table.MONTGOMERY_R))
+  have hi1v : (Table.vectorQueries H nc.val fr queries
+      (v.map (· * Table.MONTGOMERY_R))).map (·.index.val) = queries.map (·.val) := by
+    conv_rhs => rw [← hi1]
+    rw [List.map_map]; rfl
+  have := decommit_auths_length_ge hh r _ a
+      (by intro h0; rw [h0] at hi1; exact hne hi1.symm)
+      (by rw [hi1v]; exact hs)
+      (by
+        intro vq hvq
+        have : vq.index ∈ queries := by rw [← hi1]; exact List.mem_map_of_mem (f := (·.index)) hvq
+        exact hr _ this) h1
+  rw [hi1v] at this
+  exact this
 
 end Swiftness.Proofs.Tamper
